@@ -23,8 +23,12 @@ import (
 	"encoding/json"
 	"flag"
 	"fmt"
+	"hash/fnv"
+	"io"
 	"os"
+	"regexp"
 	"runtime/debug"
+	"sort"
 	"strings"
 	"sync"
 	"sync/atomic"
@@ -625,6 +629,7 @@ func parserClause(text string) {
 		}
 	}
 	a, b := renderVal(g.v), renderVal(conv)
+	readerClause(text, a, rp)
 	if a == b {
 		return
 	}
@@ -634,6 +639,144 @@ func parserClause(text string) {
 		kid = knownNumber
 	}
 	add("violation", "parser:value", "gen.Parser output differs from Generify(oj.Parser output)", rp, kid)
+}
+
+// ---- parser clause through the io.Reader entry points ----
+
+// chunkReader delivers data in the pieces given by cuts (ascending offsets); a Read never crosses a
+// cut, so every cut is the end of one read buffer of the parser.
+type chunkReader struct {
+	data []byte
+	cuts []int
+	pos  int
+}
+
+func (r *chunkReader) Read(p []byte) (int, error) {
+	if r.pos >= len(r.data) {
+		return 0, io.EOF
+	}
+	end := len(r.data)
+	for _, c := range r.cuts {
+		if c > r.pos {
+			if c < end {
+				end = c
+			}
+			break
+		}
+	}
+	n := copy(p, r.data[r.pos:end])
+	r.pos += n
+	return n, nil
+}
+
+// chunkings for a text: a cut after every `"`; one cut after each single `"` (all of them for few
+// quotes, a sample otherwise); seeded random cut sets; one byte at a time for short texts.
+func chunkingsFor(text string) [][]int {
+	n := len(text)
+	var quotes []int
+	for i := 0; i < n-1; i++ {
+		if text[i] == '"' {
+			quotes = append(quotes, i+1)
+		}
+	}
+	h := fnv.New64a()
+	h.Write([]byte(text))
+	r := lib.NewRng(h.Sum64())
+	var out [][]int
+	if len(quotes) > 0 {
+		out = append(out, quotes)
+		if len(quotes) <= 12 {
+			for _, q := range quotes {
+				out = append(out, []int{q})
+			}
+		} else {
+			for k := 0; k < 6; k++ {
+				out = append(out, []int{quotes[r.Intn(len(quotes))]})
+			}
+		}
+	}
+	if n >= 2 {
+		for k := 0; k < 2; k++ {
+			m := 1 + r.Intn(4)
+			set := map[int]bool{}
+			for i := 0; i < m; i++ {
+				set[1+r.Intn(n-1)] = true
+			}
+			var cuts []int
+			for c := range set {
+				cuts = append(cuts, c)
+			}
+			sort.Ints(cuts)
+			out = append(out, cuts)
+		}
+	}
+	if n >= 2 && n <= 64 {
+		ones := make([]int, n-1)
+		for i := range ones {
+			ones[i] = i + 1
+		}
+		out = append(out, ones)
+	}
+	return out
+}
+
+// the parsers' integer fast loop turns 9223372036854775800..807 into text when the digits arrive in
+// one buffer and into an int64 otherwise (known finding C03-int19, property C03): reader results for
+// texts with such digits are compared between the two parsers only, not with the []byte result
+var int19Re = regexp.MustCompile(`92233720368547758\d\d`)
+
+// readerClause: for every chunking, gen.Parser.ParseReader equals Generify(oj.Parser.ParseReader) on
+// the same chunks, and equals gen.Parser.Parse of the whole text (bytesTxt).
+func readerClause(text, bytesTxt string, rp map[string]any) {
+	for _, cuts := range chunkingsFor(text) {
+		rep.Count("parser.reader_runs", 1)
+		var gTxt, sTxt string
+		func() {
+			defer func() {
+				if r := recover(); r != nil {
+					gTxt = "panic: " + fmt.Sprint(r)
+				}
+			}()
+			var p gen.Parser
+			n, err := p.ParseReader(&chunkReader{data: []byte(text), cuts: cuts})
+			if err != nil {
+				gTxt = "error"
+				return
+			}
+			gTxt = renderVal(nodeAny(n))
+		}()
+		func() {
+			defer func() {
+				if r := recover(); r != nil {
+					sTxt = "panic: " + fmt.Sprint(r)
+				}
+			}()
+			var p oj.Parser
+			v, err := p.ParseReader(&chunkReader{data: []byte(text), cuts: cuts})
+			if err != nil {
+				sTxt = "error"
+				return
+			}
+			sTxt = renderVal(nodeAny(alt.Generify(v, &ojg.Options{})))
+		}()
+		if gTxt == sTxt && (gTxt == bytesTxt || int19Re.MatchString(text)) {
+			continue
+		}
+		rp2 := cloneMap(rp)
+		rp2["cuts"] = fmt.Sprint(cuts)
+		rp2["gen_parse_reader"], rp2["generify_oj_parse_reader"], rp2["gen_parse_bytes"] = clip(gTxt), clip(sTxt), clip(bytesTxt)
+		if strings.HasPrefix(gTxt, "panic") || strings.HasPrefix(sTxt, "panic") {
+			add("violation", "panic:parser-reader", "a parser panicked on a chunked reader", rp2, "")
+		} else if gTxt != sTxt {
+			kid := ""
+			if strings.Contains(gTxt, "G") && strings.ReplaceAll(sTxt, "n", "") != sTxt {
+				kid = knownNumber // only while that id is still in the known list
+			}
+			add("violation", "parser:reader-value", "gen.Parser.ParseReader differs from Generify(oj.Parser.ParseReader) on the same chunks", rp2, kid)
+		} else {
+			add("violation", "parser:reader-chunking", "gen.Parser.ParseReader depends on how the reader is chunked (differs from Parse of the whole text)", rp2, "")
+		}
+	}
 }
 
 // ---- main ----
@@ -791,7 +934,7 @@ func main() {
 		nDocs = 1000000
 	}
 	tg := &textGen{r: base.Fork(1 << 30)}
-	for _, t := range []string{"null", "[]", "{}", "1e400", "[123456789012345678901234567890]", `{"a":1,"a":2}`, "-0", "-0.0"} {
+	for _, t := range []string{`["a\tb","xyz"]`, `{"k\n":"v","w":["x","y\u0041"]}`, "null", "[]", "{}", "1e400", "[123456789012345678901234567890]", `{"a":1,"a":2}`, "-0", "-0.0"} {
 		emitJob(job{text: t, json: true}, "j"+t, "json_boundary")
 	}
 	for i := 0; i < nDocs; i++ {
